@@ -123,7 +123,9 @@ func GenTlvNumberDecode(code string) (string, error) {
 
 func GenNaturalNumberDecode(code string) (string, error) {
 	const Temp = `{{.}} = uint64(0)
-	{
+	if l != 1 && l != 2 && l != 4 && l != 8 {
+		err = enc.ErrFormat{Msg: "natural number with a length other than 1, 2, 4 or 8"}
+	} else {
 		for i := 0; i < int(l); i++ {
 			x := byte(0)
 			x, err = reader.ReadByte()
